@@ -246,7 +246,7 @@ Definition punavail_one (bs be : term) (lo hi period start offset : Z) (end_ : o
   let folded := TMod (TSub bs (TC offset)) (TC period) in
   let c := FOr [FLe (TAdd [folded; TSub be bs]) (TC lo);
                 FAnd [FGe folded (TC hi); FLe (TAdd [folded; TSub be bs]) (TC (lo + period))]] in
-  let conds := [c] ++ (if start >? 0 then [FLe be (TC start)] else [])
+  let conds := [c] ++ [FLe be (TC start)]
                    ++ (match end_ with Some e => [FGe bs (TC e)] | None => [] end) in
   match conds with [_] => c | _ => FOr conds end.
 
@@ -291,7 +291,7 @@ Definition pinterrupted_worker (w : wref) (busy : list busyent) (ivs : list (Z *
                                        FAnd [FGe fs (TC hi); FLe (TAdd [fs; dur]) (TC (lo + period))]]) ivs
       end in
     let core := FAnd task_conds in
-    let mask := [core] ++ (if start >? 0 then [FLe be (TC start)] else [])
+    let mask := [core] ++ [FLe be (TC start)]
                        ++ (match end_ with Some e => [FGe bs (TC e)] | None => [] end) in
     match mask with [_] => core | _ => FOr mask end) busy).
 
